@@ -586,6 +586,17 @@ def r05_6(chk, tier, units=None, floor=250):
                 fns.setdefault((f['file'], f['l']), f)
         chk.require(fns, 'R05.6: no function of %s in the facts' % header)
         res, names = PB.analyse_group(facts, list(fns.values()))
+        if not names and only is not None:
+            # the named scanner no longer walks raw pointers (e.g. it became a range-for over the input): nothing can be dereferenced
+            # out of bounds; that is acceptable only if it still iterates over the input with a range-for
+            rf = [f for f in fns.values() if any(x.get('k') == 'CXXForRangeStmt' for x in A.walk_no_lambda(f['body']))]
+            if rf and not any(x.get('k') == 'UnaryOperator' and x.get('op') == '*' and 'char' in (f['_types'][x['t'] - 1] if x.get('t') else '')
+                              and not A.ref_name(x.get('sub')).startswith('__')      # the implicit *__begin of the range-for itself
+                              for f in fns.values() for x in A.walk_no_lambda(f['body'])):
+                for f in rf:
+                    n += 1; chk.analysed(f)
+                    chk.ok('R05.6', U.site(f, 'range-for scanner (no raw cursor)'), {'function': f['q']})
+                continue
         chk.require(names, 'R05.6: no cursor found in %s' % header)
         en = None
         for an in res:
